@@ -420,7 +420,7 @@ def main():
         }],
         'extension_checks': {
             'note': 'specification coverage beyond the listed properties (DESIGN.md section 8b); not claims about any property',
-            'ids': ['X01', 'X02', 'X03', 'X04', 'X05', 'X06', 'X07', 'X08', 'X09', 'X10', 'X11', 'X12', 'X13'],
+            'ids': ['X01', 'X02', 'X03', 'X04', 'X05', 'X06', 'X07', 'X08', 'X09', 'X10', 'X11', 'X12', 'X13', 'X14'],
             'cmd_template': 'bin/check {id} [--tier thorough]',
             'evidence_dir': 'evidence_ext/',
         },
